@@ -87,7 +87,7 @@ theorem Inv3.lockOnly {cfg : Cfg} {s : State} (h : Inv3 cfg s) {l : LockId} {lk 
 
 theorem max_cases (a b : Nat) : max a b = a ∨ max a b = b := by omega
 
-theorem Inv3.eff {cfg : Cfg} {s s' : State} (h1 : Inv1 cfg s) (h : Inv3 cfg s) (e : Eff cfg s s') : Inv3 cfg s' := by
+theorem Inv3.eff {cfg : Cfg} {s s' : State} (h1 : Inv1 cfg s) (h : Inv3 cfg s) {o : Option LockId} (e : Eff cfg s o s') : Inv3 cfg s' := by
   cases e with
   | gen ts keys hnd =>
     refine ⟨h.pubs_le, h.max_pub, ?_, ?_⟩
